@@ -4,6 +4,45 @@
 #include "mp/flat/model_api_connect.h"
 #include "recmodelapi.h"
 
+#include "recjson.h"
+
+// ---- C20: read-only access to the value presolver's registered link ranges (private member `brl_`)
+// through the explicit-instantiation rule (no change to the library).  Used only when RECSOLVER_LINKS=1.
+// (valcvt.h can be included in one translation unit only: valcvt-node.h defines non-inline specializations.)
+namespace recpriv {
+template <class Tag, typename Tag::type M> struct Rob { friend typename Tag::type get(Tag) { return M; } };
+struct BrlTag { typedef mp::pre::LinkRangeList mp::pre::ValuePresolverImpl::*type; friend type get(BrlTag); };
+template struct Rob<BrlTag, &mp::pre::ValuePresolverImpl::brl_>;
+}
+
+namespace mp {
+static std::string RecNodes(const std::vector<pre::NodeRange> &v) {
+  std::string r = "[";
+  for (size_t i = 0; i < v.size(); ++i) {
+    if (i) r += ",";
+    auto ir = v[i].GetIndexRange();
+    r += "[" + rec::str(v[i].GetValueNode()->GetName()) + "," + std::to_string(ir.beg_) + "," + std::to_string(ir.end_ - 1) + "]";
+  }
+  return r + "]";
+}
+
+void RecLogFinalLinks(pre::BasicValuePresolver &bvp, RecState &st) {
+  auto *impl = dynamic_cast<pre::ValuePresolverImpl *>(&bvp);
+  if (!impl) { st.Log("{\"ev\":\"link_final_unavailable\"}"); return; }
+  const pre::LinkRangeList &brl = (*impl).*get(recpriv::BrlTag());
+  pre::BasicLink::EntryItems ei;
+  int irange = 0;
+  for (const auto &lr : brl) {
+    for (int i = lr.ir_.beg_; i != lr.ir_.end_; ++i) {
+      lr.b_.ExportEntryItems(ei, i);
+      st.Log("{\"ev\":\"link_final\",\"range\":" + std::to_string(irange) + ",\"type\":" + rec::str(lr.b_.GetTypeName()) +
+             ",\"entry\":" + std::to_string(i) + ",\"src\":" + RecNodes(ei.src_items_) + ",\"dst\":" + RecNodes(ei.dest_items_) + "}");
+    }
+    ++irange;
+  }
+}
+}  // namespace mp
+
 namespace mp {
 std::unique_ptr<BasicModelManager>
 CreateRecModelMgr(RecCommon &cc, Env &e, pre::BasicValuePresolver *&pPre) {
